@@ -169,11 +169,34 @@ func emitDetFacts(repo, out string) {
 	}
 	var sites []detSite
 	for _, x := range files {
+		// package-level `var x = &cobra.Command{ Run: func(...) {...} }` holds most of cmd/: every function
+		// literal in a variable initialiser is scanned as a pseudo function named after the variable
+		var fdecls []*ast.FuncDecl
 		for _, d := range x.f.Decls {
-			fd, ok := d.(*ast.FuncDecl)
-			if !ok || fd.Body == nil {
-				continue
+			switch t := d.(type) {
+			case *ast.FuncDecl:
+				if t.Body != nil {
+					fdecls = append(fdecls, t)
+				}
+			case *ast.GenDecl:
+				for _, sp := range t.Specs {
+					vs, ok := sp.(*ast.ValueSpec)
+					if !ok || len(vs.Names) == 0 {
+						continue
+					}
+					for _, v := range vs.Values {
+						ast.Inspect(v, func(n ast.Node) bool {
+							if fl, ok := n.(*ast.FuncLit); ok {
+								fdecls = append(fdecls, &ast.FuncDecl{Name: ast.NewIdent("var:" + vs.Names[0].Name), Type: fl.Type, Body: fl.Body})
+								return false
+							}
+							return true
+						})
+					}
+				}
 			}
+		}
+		for _, fd := range fdecls {
 			locals := map[string]bool{}
 			addFields := func(fl *ast.FieldList) {
 				if fl == nil {
